@@ -1,7 +1,7 @@
 """C10 -- landscape p-norms and sup-norm equal the integrals they name."""
 from fractions import Fraction
 from math import gcd
-from .. import tlc
+from .. import tlc, lazy
 from ..common import EXACT_EMBS, unfl, run_driver_parallel
 from ..fix import fix
 from .c09 import rand_bars, rand_cp, lcm
@@ -268,7 +268,7 @@ def validate(ctx, makes, embs, label, nproc=12):
 
 def run(ctx):
     quick = ctx.tier == "quick"
-    ctx.rule = RULE
+    ctx.rule = RULE + lazy.RULE
     ctx.assumptions += ["integer abscissae; ordinates decodable with denominator <= 64; real p only for p in {1.5, 2.5, 3.5} on perfect-square ordinates",
                         "the integral is recomputed from the OBSERVED critical points (C03/C09 decide whether those are the right function)"]
     # (TLC integers are 32-bit: the rational arithmetic of MaxY=4, MaxP>=5 overflows, so the thorough tier trades ordinate range against the exponent)
@@ -287,8 +287,11 @@ def run(ctx):
     embs = [EXACT_EMBS[i % 6] for i in range(len(makes))]      # incl. scales 2^-50 and 2^30 (absolute tolerances in the code show there)
     validate(ctx, makes, embs, "V")
 
+    lazy.run(ctx, "C10", quick)
 
 def replay(ctx, rec):
+    if rec["case"].get("kind") == "lazy":
+        return lazy.replay(ctx, rec)
     c = rec["case"]
     e = next(x for x in EXACT_EMBS if x.name == c["emb"])
     validate(ctx, [c["make"]], [e], "replay", nproc=1)
